@@ -704,7 +704,13 @@ class Translator:
             if len(a) == 1 and a[0].t == t:
                 self.count('R17.copy')
                 return a[0]
-            return E('recctor', t, rec=t, args=a, ctor=self._ctor_mangled(n), default=(len(a) == 0))
+            ctor = self._ctor_mangled(n)
+            for i, x in enumerate(a):
+                if x.k == 'lit' and getattr(x, 'default_arg', False) and ctor:
+                    dn = self.default_arg(ctor, i)
+                    if dn is None: raise Unsupported('default argument %d of constructor %s not found' % (i, t))
+                    a[i] = self.coerce(self.expr(dn), x.t)
+            return E('recctor', t, rec=t, args=a, ctor=ctor, default=(len(a) == 0))
         if t in INT_TYPES or t == 'double' or t == 'iter':
             a = [self.expr(c) for c in args]
             return a[0]
@@ -821,9 +827,31 @@ class Translator:
         mn = d.get('mangledName')
         return mn in self.u.funcs
 
+    def default_arg(self, mangled, index):
+        """default argument expression of parameter `index`, taken from whichever redeclaration carries it"""
+        if not hasattr(self.u, '_defaults'):
+            self.u._defaults = {}
+            for d in self.u.by_id.values():
+                mn = d.get('mangledName')
+                if not mn or d.get('kind') not in ('FunctionDecl', 'CXXMethodDecl', 'CXXConstructorDecl'): continue
+                ps = [p for p in d.get('inner', []) if p.get('kind') == 'ParmVarDecl']
+                for i, p in enumerate(ps):
+                    if p.get('init') and p.get('inner'):
+                        self.u._defaults[(mn, i)] = p['inner'][0]
+        return self.u._defaults.get((mangled, index))
+
     def user_call(self, cd, args, n):
         d = self.u.by_id.get(cd.get('id'), cd)
         mn = d.get('mangledName')
+        if mn:
+            off = 1 if d.get('kind') in ('CXXMethodDecl', 'CXXConversionDecl') and len(args) and True else 0
+            nparams = len([p for p in d.get('inner', []) if p.get('kind') == 'ParmVarDecl'])
+            off = len(args) - nparams if nparams and len(args) >= nparams else 0
+            for i, a in enumerate(args):
+                if a.k == 'lit' and getattr(a, 'default_arg', False):
+                    dn = self.default_arg(mn, i - off)
+                    if dn is None: raise Unsupported('default argument %d of %s not found' % (i - off, cd.get('name')))
+                    args[i] = self.coerce(self.expr(dn), a.t)
         if mn is None or not mn.startswith('_ZN10libphysica') and not mn.startswith('_ZZN10libphysica') and not mn.startswith('_ZNK10libphysica'):
             return E('call', node_ty(n), fn='ext:' + str(cd.get('name')), kind='ext', args=args)
         self.f.callees.add(mn)
